@@ -22,6 +22,9 @@ type c10Case struct {
 	Lines []string `json:"lines"`
 	Fresh string   `json:"fresh"`
 	Big   bool     `json:"big"`
+	// Huge > 0: Lines[HugeAt] is replaced, when the case runs, by a record of this many bytes
+	Huge   int `json:"huge,omitempty"`
+	HugeAt int `json:"huge_at,omitempty"`
 }
 
 var c10Atoms = []string{"echo hello", "ls -la", "git commit -m \"x y\"", "a\\b\\\\c", "tab\there", "multi\nline\nentry", "quote ' and \" and `", "世界 wörld 🎉", "ctrl\x01\x02\x1b[31mred", "u2028 sep ", "{\"json\":true}", "}", "{", "\\n literal", "trailing space   ", "   leading", "\r\nCRLF\r\n", "nul\x00byte", "é", "x"}
@@ -57,6 +60,14 @@ func c10Gen(r *rand.Rand, tier string, idx int) any {
 		c.Lines = append(c.Lines, l)
 	}
 	c.Fresh = "fresh-entry-" + pick(r, c10Atoms)
+	if idx%100 == 50 {
+		// one record above 1 MiB (a pasted script), followed by ordinary ones
+		c.Huge = pick(r, []int{1 << 20, 1100000, 2200000, 3 << 20})
+		c.HugeAt = r.Intn(len(c.Lines))
+		if len(c.Lines) == 1 || c.HugeAt == len(c.Lines)-1 {
+			c.Lines = append(c.Lines, pick(r, c10Atoms)+" after the long one")
+		}
+	}
 	return c
 }
 
@@ -129,6 +140,10 @@ func c10Run(env *fw.Env, raw json.RawMessage) fw.Outcome {
 	if h == nil {
 		o.Viol("constructor-returned-nil", "NewHistoryFromFile on a missing file returned a nil source")
 		return o.O
+	}
+	if c.Huge > 0 && c.HugeAt < len(c.Lines) {
+		c.Lines[c.HugeAt] = strings.Repeat("0123456789abcde ", c.Huge/16) + "END"
+		o.Add("cases_with_a_record_above_1MiB", 1)
 	}
 	var bounds []int64 // file size after each successful write
 	var written []string
@@ -228,6 +243,36 @@ func c10Run(env *fw.Env, raw json.RawMessage) fw.Outcome {
 					continue
 				}
 			}
+			if points%4 == 1 && k > 1 {
+				// the same crash seen by a source that was open before it: a second source on the
+				// same file (another Shell, another terminal) was loaded when the file held the
+				// completed entries; the other writer then died inside its append; the survivor
+				// writes its own entry. Its Write succeeded, so a reopened history returns it.
+				shared := filepath.Join(dir, "shared")
+				os.WriteFile(shared, data[:lo], 0o600)
+				hs, _ := readline.NewHistoryFromFile(shared)
+				if hs == nil {
+					o.Viol("reopen-after-torn-append-failed", "nil source")
+					break
+				}
+				if f, err := os.OpenFile(shared, os.O_APPEND|os.O_WRONLY, 0o600); err == nil {
+					f.Write(data[lo:off])
+					f.Close()
+				}
+				if _, err := hs.Write(c.Fresh); err != nil {
+					o.Inc("Write of the surviving source failed: " + err.Error())
+					continue
+				}
+				o.Add("appends_by_a_source_open_before_another_writer_crashed", 1)
+				gs, err := c10Read(shared)
+				g := c10Norm(gs)
+				w1 := c10Norm(append(append([]string{}, prevWant...), c.Fresh))
+				w2 := c10Norm(append(append([]string{}, fullWant...), c.Fresh))
+				if err != nil || !(eqStrings(g, w1) || (complete && eqStrings(g, w2))) {
+					o.Viol("append-by-a-surviving-source-after-another-writers-torn-append-not-durable", fmt.Sprintf("%d completed entries, a source opened, then %d of the %d bytes of another writer's record appended, then %q written through the open source and the file reopened: expected %d entries ending with the fresh one, got %d (%s) err=%v", len(prevWant), off-lo, hi-lo, c.Fresh, len(w1), len(g), qs(tail(g, 3)), err))
+					break
+				}
+			}
 			got2, err := c10Read(cut)
 			g2 := c10Norm(got2)
 			w1 := c10Norm(append(append([]string{}, prevWant...), c.Fresh))
@@ -276,7 +321,7 @@ func init() {
 	fw.Register(&fw.Prop{
 		ID:    "C10",
 		Level: "fault_enumeration",
-		Rule: "sequences of 1-8 written lines (Unicode, quotes, backslashes, embedded newlines, C0 controls, U+2028, JSON look-alikes, blanks, consecutive duplicates; every 12th case with records of 4 KB-200 KB around the 64 KiB scanner limit); (1) round trip through a reopened history; (2) for the last append, the file cut at EVERY byte offset of the record (sampled at ~1500 offsets for records > 4 KiB): reopen must succeed and return the completed entries, then a fresh entry appended through the API must be there after another reopen. " +
+		Rule: "sequences of 1-8 written lines (Unicode, quotes, backslashes, embedded newlines, C0 controls, U+2028, JSON look-alikes, blanks, consecutive duplicates; every 12th case with records of 4 KB-200 KB around the 64 KiB scanner limit, every 100th with one record of 1-3 MiB); (1) round trip through a reopened history; (2) for the last append, the file cut at EVERY byte offset of the record (sampled at ~1500 offsets for records > 4 KiB): reopen must succeed and return the completed entries, then a fresh entry appended through the API must be there after another reopen; at every fourth offset also: a second source opened on the file before the other writer's torn append writes the fresh entry. " +
 			"distinct non-trivial = distinct (phase, entry count or record size class, enumeration mode) tuples; counters.crash_points = cut files checked",
 		Assumptions: []string{"an append is a single write(2) with O_APPEND, so a crash leaves a byte prefix of the last record (file.go Write)", "blank lines and consecutive duplicates may be absent", "no fsync semantics are claimed (process death, not power loss)"},
 		N: func(tier string) int {
